@@ -54,6 +54,7 @@ type World struct {
 
 	Renamed     []string
 	aliased     map[*Func]bool
+	aliasShort  map[string]string // new short name -> pinned short name
 	Inlined     []string // helper functions substituted at their call sites before analysis
 	InlineNotes []string
 }
@@ -88,7 +89,26 @@ func Load(o LoadOpts) (*World, error) {
 	if err != nil || o.NoInline || len(pinnedFuncs) == 0 {
 		return w, err
 	}
+	// renamed fields and types are spelled back first (rename.go)
+	for round := 0; round < 3; round++ {
+		ov, names := w.renameRound(o.Overlay)
+		if len(names) == 0 {
+			break
+		}
+		o2 := o
+		o2.Overlay = ov
+		w2, err2 := loadOnce(o2)
+		if err2 != nil {
+			w.InlineNotes = append(w.InlineNotes, fmt.Sprintf("rename normalisation abandoned for %v: %v", names, err2))
+			break
+		}
+		w2.Renamed = append(append([]string{}, w.Renamed...), names...)
+		w2.InlineNotes = w.InlineNotes
+		w, o = w2, o2
+	}
+	pre := w.Renamed
 	w.aliasRenamed()
+	w.Renamed = append(pre, w.Renamed...)
 	for round := 0; round < 12; round++ {
 		ov, names, notes := w.inlineRound(o.Overlay)
 		if len(names) == 0 {
@@ -100,6 +120,10 @@ func Load(o LoadOpts) (*World, error) {
 				ov, subs = w.unrollLiteralRanges(o.Overlay)
 				kind = "range over a literal unrolled in "
 			}
+			if len(subs) == 0 {
+				ov, subs = w.restoreLoops(o.Overlay)
+				kind = ""
+			}
 			if len(subs) > 0 {
 				names = nil
 				o2 := o
@@ -109,7 +133,9 @@ func Load(o LoadOpts) (*World, error) {
 					w.InlineNotes = append(w.InlineNotes, fmt.Sprintf("local substitution abandoned for %v: %v", subs, err2))
 					break
 				}
+				keep := w.Renamed
 				w2.aliasRenamed()
+				w2.Renamed = keep
 				w2.Inlined = w.Inlined
 				w2.InlineNotes = append(w.InlineNotes, notes...)
 				for _, s := range subs {
@@ -139,7 +165,9 @@ func Load(o LoadOpts) (*World, error) {
 			w.InlineNotes = append(w.InlineNotes, fmt.Sprintf("helper transparency abandoned for %v: the substituted program does not type-check (%v)", names, err2))
 			break
 		}
+		keepR := w.Renamed
 		w2.aliasRenamed()
+		w2.Renamed = keepR
 		w2.Inlined = append(append([]string{}, w.Inlined...), names...)
 		w2.InlineNotes = w.InlineNotes
 		w, o = w2, o2
